@@ -36,7 +36,20 @@ def doc_events(b, sch, rd, toks, rng, marks, n_ranges, total=True, all_ranges=Fa
     ranges = [(f, t) for f in range(n + 1) for t in range(f, n + 1)]
     if not all_ranges and len(ranges) > n_ranges:
         ranges = rng.sample(ranges, n_ranges)
+    # marks the document itself carries - first those of a type that occurs twice on one node (comment threads): removing
+    # one instance must leave the other
+    present, twice = [], []
+    def see(node, pos, parent, index):
+        for mk in node.marks:
+            if all(not mk.eq(o) for o in present):
+                present.append(mk)
+            if sum(1 for o in node.marks if o.type == mk.type) > 1 and all(not mk.eq(o) for o in twice):
+                twice.append(mk)
+    rd.descendants(see)
     for f, t in ranges:
+        own = twice[:2] + rng.sample(present, min(len(present), 1))
+        for m in own:
+            opdrive.ev_mark_op(b, rd, di, "remove_mark", f, t, mark=m)
         for m in (marks if all_ranges else rng.sample(marks, min(len(marks), 2))):
             opdrive.ev_mark_op(b, rd, di, "add_mark", f, t, mark=m)
             opdrive.ev_mark_op(b, rd, di, "remove_mark", f, t, mark=m)
@@ -119,7 +132,7 @@ def run(tier: str, seed: int, t0: float) -> int:
             doc_events(b3, sch3, rd, toks, rng, marks3, 10)
         jobs.append((b3, f"T markops[cfg {excl}]"))
     # ---- T: bundled
-    for name in schemas.BUNDLED_PLUS + ["s1", "at"]:
+    for name in schemas.BUNDLED_PLUS + ["s1", "at", "s4", "bm"]:
         sch2, js2, prs = universe.random_docs(name, 10 if not thorough else 100, rng, size=1.3)
         b2 = trace.Batch(js2)
         marks2 = mark_universe(sch2)
